@@ -1,6 +1,7 @@
 """C06 — length-prefixed data fields carry arbitrary bytes."""
 from vlib import build as B
 from vlib import codecgen as G
+from vlib import core
 from vlib.core import Case
 from vlib.suites import _c05c06 as H
 
@@ -22,7 +23,10 @@ COQ_TARGETS = ["Props/Properties_C06.vo", "Extract/Extract_C06.vo"]
 TRUSTED_BASE = ["Coq 8.16.1 kernel (coqc), vm_compute only", "Extraction with ExtrOcamlBasic, no Extract Constant; OCaml 4.13.1",
                 "hand-written model coq/Codec/*.v of runtime/message.cpp + include/fix8/message.hpp, tied by differential execution",
                 "harness/h_codec.cpp + harness/meta_dump.hpp (metadata taken from the compiled generated classes)",
-                "ocaml/prelude.ml + ocaml/c06_driver.ml (metadata / msgspec / dump parsers), vlib/codecgen.py + vlib/suites/_c05c06.py (generators)"]
+                "ocaml/prelude.ml + ocaml/c06_driver.ml (metadata / msgspec / dump parsers), vlib/codecgen.py + vlib/suites/_c05c06.py (generators)",
+                "re-entrancy of Message::factory / MessageBase::decode (several reader threads decoding at the same time) rests on the "
+                "concurrent differential run of harness/h_c06.cpp (and its ThreadSanitizer build in the thorough tier), NOT on a theorem: "
+                "the Coq model is sequential"]
 ASSUMPTIONS = ["the property's domain (in_domain of Spec_C06.v): every Length/data pair of a message is used consistently -- both "
                "fields present, the Length field holding the decimal length of the content -- and the content has at most "
                "FIX8_MAX_FLD_LENGTH - 1 = 2047 bytes (larger values are rejected with 'Value size too large'; 2048-byte "
@@ -49,8 +53,19 @@ def schemas(tier):
 _state = {}
 
 
+def _conc_exe(variant):
+    import hashlib
+    h = hashlib.sha256(open(B.VERIF + "/harness/h_codec.cpp", "rb").read()).hexdigest()[:12]
+    return B.harness("h_c06", runtime=None, schema="utest", variant=variant, extra=["-DHCODEC_SRC_" + h])
+
+
 def build(tier):
     built = G.build_codec(schemas(tier))
+    # the concurrent class runs on its own harness (h_c06.cpp = h_codec's decode stage on K threads);
+    # thorough: the same harness under ThreadSanitizer as well
+    built["conc"] = _conc_exe("plain")
+    if tier == "thorough":
+        built["conc_tsan"] = _conc_exe("tsan")
     _state["built"] = built
     return built
 
@@ -69,7 +84,19 @@ def join(rest, rs):
 
 
 def run_impl(built, cases, tier):
-    return H.run_multi(built, cases, expand, join)
+    conc = [k for k, c in enumerate(cases) if c.line.startswith(("C ", "CT "))]
+    rest = [k for k in range(len(cases)) if k not in set(conc)]
+    res = [None] * len(cases)
+    for k, r in zip(rest, H.run_multi(built, [cases[k] for k in rest], expand, join)):
+        res[k] = r
+    for k in conc:
+        tsan = cases[k].line.startswith("CT ")
+        exe = built["conc_tsan"] if tsan else built["conc"]
+        env = {"TSAN_OPTIONS": "halt_on_error=1:report_signal_unsafe=0"} if tsan else None
+        line = "CONC " + cases[k].line.split(" ", 1)[1]
+        r = core.run_lines([exe], [line], per_case_timeout=900, timeout_per_batch=900, env=env)[0]
+        res[k] = H.crash_to_model(r)
+    return res
 
 
 # ------------------------------------------------------------------------------ placements
@@ -342,6 +369,36 @@ def gen_cases(rng, tier):
                 for n in range(0, 2048):
                     m = sized(rng, gen, meta, simple, pl, n=n)
                     cs.append(Case(px + "P " + G.ser_msg(*m), "sweep-%s" % pl[0]))
+        # 3c. CONCURRENT decoding: K = 2 and 4 real threads, each decoding its own messages (long data
+        #     fields, 1-2 KB with SOH / '=' inside, in header, body and trailer pairs; every thread's
+        #     payload bytes come from its own alphabet so that bytes leaking between threads cannot
+        #     coincide) 20000 times (uninstrumented build: the sanitizer allocator serialises the threads); the harness compares every result with the same thread's
+        #     single-threaded result.  The messages are also decoded as ordinary W cases.
+        if main:
+            cpl = byk["H"][:2] + byk["T"][:1] + [p for p in byk["B"] if (p[4], p[5]) == (95, 96)][:2] + byk["B"][:1]
+            for K, reps in ((2, 2), (4, 2)):
+                for rep in range(reps * scale):
+                    lists = []
+                    for t in range(K):
+                        wires = []
+                        for j in range(5):
+                            pl = cpl[(t + j + rep) % len(cpl)]
+                            n = rng.choice((2047, 2046, 1800, 1500, 1200, 1024))
+                            lo = 0x21 + 23 * ((t + 4 * rep) % 9)
+                            c = bytearray(lo + rng.randrange(23) for _ in range(n))
+                            if pl[0] != "T":
+                                for _ in range(8):
+                                    c[rng.randrange(n)] = rng.choice((1, 61))
+                            m = place(rng, gen, meta, simple, pl, str(n).encode(), bytes(c))
+                            toks = H.wire_tokens(meta, *m)
+                            wire = H.frame(meta.begin, m[0], [x.raw for x in toks])
+                            wires.append(wire.hex())
+                            if rep == 0 and j < 2:
+                                cs.append(Case(px + "W %s %s" % (G.ser_msg(*m), wire.hex()), "conc-single-%s" % pl[0]))
+                        lists.append(",".join(wires))
+                    cs.append(Case("C 20000 " + ";".join(lists), "concurrent-%d" % K))
+                    if thorough and rep == 0:
+                        cs.append(Case("CT 600 " + ";".join(lists), "concurrent-tsan-%d" % K))
         # 4. NUL contents: through the API (truncated at construction) and as a wire image
         for k in range(30 * scale if main else 8):
             pl = rng.choice(top if k % 3 else (grp or top))
@@ -366,6 +423,8 @@ def gen_cases(rng, tier):
 
 # ------------------------------------------------------------------------------ verdict support
 def _parse(case):
+    if case.line.startswith(("C ", "CT ")):
+        raise ValueError("concurrent case")
     built = _state["built"]
     default = next(iter(built["exes"]))
     schema, rest = G.schema_of(case.line, default)
@@ -385,6 +444,8 @@ def _data_fields(meta, owner, fs, depth):
 
 
 def _all_data(case):
+    if case.line.startswith(("C ", "CT ")):
+        return None, []
     meta, op, (mt, hdr, body, trl) = _parse(case)
     out = list(_data_fields(meta, "header", hdr, 0)) + list(_data_fields(meta, mt, body, 0)) + \
         list(_data_fields(meta, "trailer", trl, 0))
@@ -419,7 +480,7 @@ CLASSIFIERS = {"content-nul": c_nul, "pair-in-group": c_group, "pair-tags-not-ad
 
 
 def nontrivial(case, r):
-    return "OK T=" in r
+    return "OK T=" in r or r.startswith("OK threads=")
 
 
 def extra_search(rng, seeds, tier):
